@@ -26,6 +26,23 @@ theorem window_statement (c : Cache) (args : List Arg) :
   · rw [noClear_lensL args h]; exact Window.nil _ _
   · simpa [Cache.clear] using Window.of_pushAll c.clear (lensL args)
 
+/-! ### statement histories: the `clear()` at the start of the size pass -/
+
+theorem sizeStatementAt_true (c : Cache) (args : List Arg) : sizeStatementAt true c args = sizeStatement c args := by
+  simp [sizeStatementAt, sizeStatement]
+
+/-- with the `clear()` at the start of the size pass a dropped statement and a logged one leave the same cache -/
+theorem StmtOp.apply_true (c : Cache) (op : StmtOp) : op.apply true c = (sizeStatement c op.args).2 := by
+  cases op <;> simp [StmtOp.apply, StmtOp.args, sizeStatementAt_true]
+
+/-- the two passes of a statement on *any* cache: the size pass reserves the length of the specified encoding, the
+    encode pass writes exactly it -/
+theorem passes_spec (old : Mem) (c : Cache) (args : List Arg) (pos : Nat) (h : wfL args = true) :
+    ((sizeStatement c args).1, (encodeL old (sizeStatement c args).2 0 pos args).map (·.1)) =
+      ((encL old pos args).length, some (encL old pos args)) := by
+  rw [sizeStatement_spec old c args pos h]
+  simp only [encodeL_spec old args _ 0 pos h (window_statement c args), Option.map_some]
+
 /-! ### sanitiser -/
 
 theorem sanitize_eq_flatMap (p : Printable) (s : Bytes) : sanitize p s = s.flatMap (sanitizeByte p) := by
